@@ -196,7 +196,7 @@ def run_check(mod, tier, seed, jobs=None):
         print(f"KNOWN-FINDING: property={pid} {k.get('what', canon(k['culprit']))}")
     rdir = os.path.join(ROOT, "replays", pid)
     lines = []
-    for c, v in unknown[:25]:
+    for c, v in unknown[: int(os.environ.get("VERIF_MAXSHOW", "25"))]:
         os.makedirs(rdir, exist_ok=True)
         sha = hashlib.sha1(canon(c).encode()).hexdigest()[:12]
         path = os.path.join(rdir, sha + ".json")
